@@ -92,7 +92,8 @@ theorem W_schedulePass0 (P : Par) (s : S) (h : 0 ≤ s.now) :
 theorem W_notify0 (P : Par) (s : S) : (W P s).notify 0 = W P s := by
   simp [notify, World.fuel, notifyUp, setWaiting, W, srcDev, snkDev, World.dev, World.setDev]
 
-theorem W_notify1 (P : Par) (s : S) (h : 0 ≤ s.now) (hs : s.since = none) :
+theorem W_notify1 (P : Par) (s : S) (h : 0 ≤ s.now) (hs : s.since = none)
+    (hp : s.spart = none) (ho : s.sout = none) :
     (W P s).notify 1 =
       if s.wds then
         W P { s with since := some s.now, wds := false,
@@ -102,8 +103,8 @@ theorem W_notify1 (P : Par) (s : S) (h : 0 ≤ s.now) (hs : s.since = none) :
   have h2 : ¬ s.now < 0 := by omega
   cases hw : s.wds <;>
   simp [notify, World.fuel, notifyUp, spaceAvail, setWaiting, operational, W, srcDev, snkDev, World.dev,
-    World.setDev, World.now, hs, hw, schedulePass, schedLib, sched, Env.apply, Env.schedule, mkEv,
-    Env.newEvent, h2, pPassPart]
+    World.setDev, World.now, hs, hw, hp, ho, schedulePass, schedLib, sched, Env.apply, Env.schedule,
+    mkEv, Env.newEvent, h2, pPassPart]
 
 /-! ### parts: only single parts of value 0 occur -/
 
@@ -175,9 +176,10 @@ def wake (P : Par) (s : S) : S :=
              uid := s.uid + 1 }
   else { s with since := some s.now }
 
-theorem W_notify1' (P : Par) (s : S) (h : 0 ≤ s.now) (hs : s.since = none) :
+theorem W_notify1' (P : Par) (s : S) (h : 0 ≤ s.now) (hs : s.since = none)
+    (hp : s.spart = none) (ho : s.sout = none) :
     (W P s).notify 1 = W P (wake P s) := by
-  rw [W_notify1 P s h hs]; unfold wake; split <;> rfl
+  rw [W_notify1 P s h hs hp ho]; unfold wake; split <;> rfl
 
 theorem W_finishCycle1 (P : Par) (s : S) (p : Nat) (h : 0 ≤ s.now) (hs : s.since = none)
     (hp : s.spart = some p) (ho : s.sout = none) :
@@ -186,7 +188,7 @@ theorem W_finishCycle1 (P : Par) (s : S) (p : Nat) (h : 0 ≤ s.now) (hs : s.sin
     simp [finishCycle, finishCycleHandler, operational, schedulePass, W, srcDev, snkDev, World.dev,
       World.setDev, World.modDev, hp, ho]
   rw [this]
-  exact W_notify1' P { s with spart := none } h hs
+  exact W_notify1' P { s with spart := none } h hs rfl ho
 
 /-- The state after the sink has accepted part `p` (before its cycle is scheduled). -/
 def accepted (s : S) (p : Nat) : S :=
